@@ -2,9 +2,12 @@ package props
 
 import (
 	"fmt"
+	randv2 "math/rand/v2"
 	"reflect"
+	"runtime"
 	"strings"
 	"sync"
+	"time"
 
 	"github.com/semihalev/twig"
 
@@ -499,6 +502,16 @@ func (p *c20) Run(rec *core.Recorder, seed uint64, idx int, tier string) {
 		// concurrent lookups sharing the process-wide cache (meaningful under -race)
 		var wg sync.WaitGroup
 		recs := make([]*core.Recorder, 8)
+		// widen the windows between the cache's lock sections (hit: read lock -> write lock; miss: lookup -> insert)
+		twig.VerifYield = func(point string) {
+			if strings.HasPrefix(point, "attr.") && randv2.Uint32N(4) == 0 {
+				if randv2.Uint32N(3) == 0 {
+					time.Sleep(time.Duration(20+randv2.Uint32N(200)) * time.Microsecond)
+				} else {
+					runtime.Gosched()
+				}
+			}
+		}
 		for g := 0; g < 8; g++ {
 			recs[g] = core.NewRecorder("C20", seed, tier)
 			wg.Add(1)
@@ -506,15 +519,22 @@ func (p *c20) Run(rec *core.Recorder, seed uint64, idx int, tier string) {
 				defer wg.Done()
 				rr := core.NewRand("C20g", seed, idx*8+g)
 				eg := twig.New()
-				for _, i := range rr.Perm(len(all)) {
-					if !p.check(recs[g], eg, all[i], "concurrent") {
-						return
+				if g%2 == 1 {
+					// evictors: new (type, attribute) pairs into the full cache while the others look the family up
+					p.flood(recs[g], eg, rr, idx*100+g, 150, nil)
+				}
+				for pass := 0; pass < 2; pass++ {
+					for _, i := range rr.Perm(len(all)) {
+						if !p.check(recs[g], eg, all[i], "concurrent") {
+							return
+						}
 					}
 				}
-				p.flood(recs[g], eg, rr, idx*100+g, 60, nil)
+				p.flood(recs[g], eg, rr, idx*100+50+g, 60, nil)
 			}(g)
 		}
 		wg.Wait()
+		twig.VerifYield = nil
 		for _, gr := range recs {
 			for k, v := range gr.Counters {
 				if !strings.HasPrefix(k, "max:") {
